@@ -131,7 +131,7 @@ def run_case(case):
     obs = {"phases_measured": 0, "bytes_streamed_mib": 0}
     cells = []
     peaks = {}
-    with pz.scratch("vf-c20-") as d:
+    with pz.scratch("vf-c20-", big=True) as d:
         arc = os.path.join(d, "big.7z")
         # warm-up: touch every lazily imported module and codec before measuring
         b = io.BytesIO()
